@@ -33,7 +33,55 @@ META = {
     },
 }
 
-SPECIAL = {}
+
+
+def blank_result(name, desc):
+    return {"cell": name, "harness": name, "wall_s": 0.0, "rc": 0, "timed_out": False, "log": "", "kind": "core",
+            "tier": "quick", "desc": desc, "cls": "K", "verdict": "INCONCLUSIVE", "reason": "", "checks_total": 0,
+            "checks_passed": 0, "checks_unreachable": 0, "failures": [], "unwind_failures": [], "covers_sat": [],
+            "covers_unsat": [], "functions": [], "stubs": [], "cbmc_stats": {}, "harness_asserts": 0}
+
+
+def c11_lemmas(tier):
+    """z3 on the four lemmas about the specification formula; 4.8.12 and 5.1 are diffed."""
+    import subprocess
+    import time
+    from pathlib import Path
+    spec = Path(__file__).resolve().parent.parent / "spec" / "c11_lemmas.smt2"
+    out = []
+    answers = {}
+    for z in ("z3", "z3-new"):
+        r = blank_result(f"spec::c11_lemmas[{z}]",
+                         "z3 on the specification formula d(a,b,f)=((b-a)*10^12) div f over u64-ranged integers: "
+                         "monotone in b, additive within 1 ps, translation invariant, identity at f=10^12 (each must be unsat)")
+        t0 = time.time()
+        try:
+            p = subprocess.run([z, "-T:300", str(spec)], capture_output=True, text=True, timeout=400)
+            ans = p.stdout.split()
+            err = "(error" in p.stdout or "(error" in p.stderr
+        except (OSError, subprocess.TimeoutExpired) as e:
+            ans, err = [], True
+            r["reason"] = str(e)[:100]
+        r["wall_s"] = round(time.time() - t0, 2)
+        r["cbmc_stats"] = {"runtime_decision_procedure_s": r["wall_s"]}
+        answers[z] = ans
+        r["checks_total"] = 4
+        if not err and ans == ["unsat"] * 4:
+            r["verdict"] = "PASS"
+            r["checks_passed"] = 4
+            r["harness_asserts"] = 4
+        else:
+            r["reason"] = r["reason"] or f"solver answered {ans} (expected 4 x unsat)"
+        out.append(r)
+    return out
+
+
+def _c11(prop, tier, seed):
+    import vk
+    return vk.check_property(prop, tier, seed, META, extra=c11_lemmas)
+
+
+SPECIAL = {"C11": _c11}
 
 # ---------------------------------------------------------------------------
 # MANIFEST content
